@@ -29,6 +29,12 @@ impl StringMap {
     #[verifier::external_body] pub fn from_bytes(data: &[u8]) -> (r: Self) ensures r == Self::parse_spec(data@) { unimplemented!() }
     #[verifier::external_body] pub fn get(&self, key: &str) -> (r: Option<&String>) ensures (r is Some) == (self.lookup(key@) is Some), r is Some ==> r->Some_0@ == self.lookup(key@)->Some_0 { unimplemented!() }
 }
+// StringMap derives PartialEq: equal as parsed key/value maps (two different texts may parse to equal maps)
+impl PartialEq for StringMap { #[verifier::external_body] fn eq(&self, o: &StringMap) -> (r: bool) ensures r == (*self == *o) { unimplemented!() } }
+impl vstd::std_specs::cmp::PartialEqSpecImpl for StringMap {
+    open spec fn obeys_eq_spec() -> bool { true }
+    open spec fn eq_spec(&self, o: &StringMap) -> bool { *self == *o }
+}
 pub trait VxMapErrS<T> { fn vx_map_err_s(self) -> std::result::Result<T, String>; }
 impl<T, E> VxMapErrS<T> for std::result::Result<T, E> {
     #[verifier::external_body]
